@@ -8,6 +8,7 @@ from . import _rows
 
 PROP = "C03"
 LEVEL = "exploration"
+ANCHORS = ["System._solve", "System.solve", "_solv_outp_volt"]  # functions whose reached lines are reported in the evidence
 RULE = (
     "cases = random SystemSpecs in benign / heavy / overloaded regimes plus an enumerated family of "
     "constant-power and constant-current loads behind each of the seven series-element forms with rs*I from "
